@@ -21,7 +21,7 @@
 (* pointer before its first argument was pushed).  The invariants relate   *)
 (* the concrete frames to it.                                              *)
 (***************************************************************************)
-EXTENDS Naturals, Integers, Sequences, FiniteSets, TLC
+EXTENDS VMRules, Sequences, FiniteSets, TLC
 
 CONSTANTS MaxDepth,    \* bound on pending activations
           MaxArity,    \* arities 0..MaxArity, with or without a rest parameter
@@ -86,7 +86,7 @@ StartCall(n, tail, r, rest) ==
 Call ==
   /\ ph = "pushed" /\ ~pend.tail
   /\ stk' = [stk EXCEPT ![sp + 1] = Ep(ep), ![sp + 2] = Ip(fresh)]
-  /\ sp' = sp + 2
+  /\ sp' = CallSp(sp)
   /\ ip' = 2000 + fresh       \* the callee's code
   /\ fresh' = fresh + 1
   /\ ctl' = <<[args |-> pend.args, ret |-> fresh, ep |-> ep, bp |-> bp, sp0 |-> pend.sp0, entered |-> FALSE]>> \o ctl
@@ -102,7 +102,7 @@ TCall ==
          top == ctl[1] IN
      IF a = f
      THEN /\ stk' = [i \in 1..Cap |-> IF i > bp - a /\ i <= bp THEN stk[sp - 1 - (bp - i)] ELSE stk[i]]
-          /\ sp' = bp + 3
+          /\ sp' = TCallSp(bp, f, a)
           /\ bp' = stk[bp + 4].v
      ELSE LET base == bp - f IN
           /\ stk' = [i \in 1..Cap |->
@@ -111,7 +111,7 @@ TCall ==
                        ELSE IF i = base + a + 2 THEN stk[bp + 2]
                        ELSE IF i = base + a + 3 THEN stk[bp + 3]
                        ELSE stk[i]]
-          /\ sp' = base + a + 3
+          /\ sp' = TCallSp(bp, f, a)
           /\ bp' = stk[bp + 4].v
   /\ ip' = 2000 + fresh
   /\ fresh' = fresh + 1
@@ -129,7 +129,7 @@ VarArg ==
      /\ a >= r                    \* fewer: Fail (below)
      /\ IF a = r + 1
         THEN /\ stk' = [stk EXCEPT ![sp - 3] = Val(fresh)]
-             /\ sp' = sp
+             /\ sp' = VarArgSp(sp, a, r)
              /\ ctl' = <<[ctl[1] EXCEPT !.args = SubSeq(@, 1, r) \o <<fresh>>]>> \o Tail(ctl)
         ELSE LET base == sp - 3 - a IN      \* slot below the first argument
              /\ stk' = [i \in 1..Cap |->
@@ -138,7 +138,7 @@ VarArg ==
                           ELSE IF i = base + r + 3 THEN stk[sp - 1]
                           ELSE IF i = base + r + 4 THEN stk[sp]
                           ELSE stk[i]]
-             /\ sp' = base + r + 4
+             /\ sp' = VarArgSp(sp, a, r)
              /\ ctl' = <<[ctl[1] EXCEPT !.args = SubSeq(@, 1, r) \o <<fresh>>]>> \o Tail(ctl)
   /\ fresh' = fresh + 1
   /\ pend' = [pend EXCEPT !.rest = FALSE, !.r = pend.r + 1]
@@ -150,8 +150,8 @@ Enter ==
   /\ ph = "called" /\ ~pend.rest
   /\ stk[sp - 2].v = pend.r          \* otherwise: Fail
   /\ stk' = [stk EXCEPT ![sp + 1] = Bp(bp)]
-  /\ sp' = sp + 1
-  /\ bp' = sp + 1 - 4
+  /\ sp' = EnterSp(sp)
+  /\ bp' = EnterBp(sp)
   /\ ep' = 3000 + fresh /\ fresh' = fresh + 1
   /\ ctl' = <<[ctl[1] EXCEPT !.entered = TRUE]>> \o Tail(ctl)
   /\ ph' = "body"
@@ -162,7 +162,7 @@ Enter ==
 Ret ==
   /\ ph = "body" /\ Len(ctl) > 0 /\ ctl[1].entered
   /\ LET n == stk[bp + 1].v IN
-     /\ sp' = bp - n
+     /\ sp' = RetSp(bp, n)
      /\ ep' = stk[bp + 2].v
      /\ ip' = stk[bp + 3].v
      /\ bp' = stk[bp + 4].v
